@@ -270,7 +270,11 @@ def run(ck, F, tier):
         r = ts.apply(("closure", cl[0], dict(env)), [var("s")])
         ra = single_atom(r) if isinstance(r, Poly) else None
         pair_ok = False
-        if ra and atom_fn(ra) == "std::option::Option::<T>::map":
+        OKRUN = app("std::result::Result::<T, E>::ok", app("mackay_neal::Config::run", var("self"), var("s")))
+        if isinstance(r, tuple) and len(r) == 3 and r[0] == "opt":
+            # Some((s, x)) exactly when run(s) is Ok(x)
+            pair_ok = r[1] == OKRUN and r[2] == ("tuple", [var("s"), app("payload0", OKRUN)])
+        elif ra and atom_fn(ra) == "std::option::Option::<T>::map":
             okv = atom_args(ra)[0]
             pair_ok = okv == app("std::result::Result::<T, E>::ok", app("mackay_neal::Config::run", var("self"), var("s")))
             inner = [c for c in walk(cl[0]["body"]) if c.get("k") == "closure"]
